@@ -821,6 +821,8 @@ func raceSummary(raw string) string {
 	return strings.Join(fns, " | ")
 }
 
+var prefixSetupID = map[string]bool{"create-db": true, "init-storage": true, "prefix-flush": true, "prefix-statement-ok": true}
+
 func sharedHarness(cfgs map[string]propCfg, prop, name string) bool {
 	for _, h := range cfgs[prop].Harnesses {
 		if h.Name == name && h.Shared {
@@ -1059,6 +1061,10 @@ func checkMain(prop, tier string) int {
 			}
 		}
 		for _, id := range sts[0].StaticAsserts {
+			if prefixSetupID[id] {
+				// evaluated only by the first harness of a worker that builds a prefix image; later ones load the cached image
+				continue
+			}
 			if asserts[id] == 0 {
 				vacuous = append(vacuous, hn+": assertion never evaluated: "+id)
 			}
